@@ -15,7 +15,7 @@ pub static DEF: PropDef = PropDef {
     id: "C10",
     level: "exploration",
     rule: "each case: a random conformant tree with known- and unknown-size masters interleaved (and random Full collapsing) is turned into a call history (with write_raw() calls of unknown ids inserted at random positions in a third of the cases), truncated at a random point (so masters may be left open) and optionally ended with flush(); the destination is a recording sink and is inspected after every call. The monitor keeps its own shadow stack of open masters from the call history. Checks: (1) at every element/Full/End call that returned Ok while the shadow stack holds no known-size master, the destination content must be walked completely and exactly by the reference header decoder guided by the partial tree of tags accepted so far (open unknown-size masters included); (2) while a known-size master is open the destination length does not change; (3) after flush()/into_inner() the destination decodes to the whole tree with every master closed and nothing left over; (4) destination content only ever grows. distinct = (tree fingerprint, sequence of shadow-stack shapes (K/U strings) at observation points) plus each shape sequence by itself; non-trivial iff some observation point had depth >= 2 or the history was cut with masters open.",
-    assumptions: &["one ordinary history in eight runs against a destination whose own flush() fails once (its write() calls took every byte): the writer call during which that happens returns a WriteError and may count as written or not (both readings are accepted at every later observation), a failing flush() is simply repeated; in no reading may a byte reach the destination twice", "a quarter of the ordinary histories continue after a flush() in the middle (which closes all open masters) with a second document under the same specification; the flush is an observation point like any other", "a fifth of the ordinary histories additionally contain one or two calls that the writer rejects (generated as in C19); rejected calls are not part of the tags written so far; all observations continue after them and judge the destination against the accepted calls only", "every eighth case is an unclosable-master history: a known-size master is given size width 1 and a Void child of 127-199 marker bytes, the history is cut before its End; flush(), flush(), End, flush(), into_inner() follow: the destination stays append-only, a failing call delivers none of the marker bytes, and any flush()/into_inner() that reports Ok must leave a destination that decodes to everything accepted", "the sink implements only io::Write, so bytes handed over cannot be retracted physically; the check is on completeness and timing", "unknown-size masters are never presented as Full (the writer ignores children there; outside C10's statement)"],
+    assumptions: &["one ordinary history in eight runs against a destination whose own flush() fails once (its write() calls took every byte): the writer call during which that happens returns a WriteError and may count as written or not (both readings are accepted at every later observation), a failing flush() is simply repeated; in no reading may a byte reach the destination twice", "a quarter of the ordinary histories continue after a flush() in the middle (which closes all open masters) with a second document under the same specification; the flush is an observation point like any other", "a fifth of the ordinary histories additionally contain one or two calls that the writer rejects (generated as in C19); rejected calls are not part of the tags written so far; all observations continue after them and judge the destination against the accepted calls only", "every eighth case is an unclosable-master history: a known-size master is given size width 1 and a Void child of 127-199 marker bytes, the history is cut before its End; flush(), flush(), End, flush(), into_inner() follow: the destination stays append-only, a failing call delivers none of the marker bytes, and any flush()/into_inner() that reports Ok must leave a destination that decodes to everything accepted", "the sink implements only io::Write, so bytes handed over cannot be retracted physically; the check is on completeness and timing"],
     cases_quick: 200_000,
     cases_thorough: 2_000_000,
     floors: &[("complete_prefix_checks", 5000), ("held_back_checks", 3000), ("distinct_nontrivial", 200), ("final_decodes", 2000)],
